@@ -5,6 +5,7 @@ import (
 	"errors"
 	"log/slog"
 	"os"
+	"runtime"
 	"strings"
 	"sync"
 	"sync/atomic"
@@ -323,10 +324,10 @@ type hydra struct {
 	// summoningSwamps csak olyan swampokat tárol, amiket éppen summonolunk, hogy két rutin ne summonolhassa ugyanazt
 	// a swampot, különben képesek lennének egyszerre létrehozni, ugyanazt a swampot. Így ha az egyik summonolja a swampot,
 	// akkor meg kell várja a másik, hogy az első visszakapja azt.
-	// Guarded by summoningMu: a slot is created, referenced and dropped under this mutex, so it can only be
-	// dropped when no summoner references it any more.
-	summoningSwamps map[string]*SwampWaiter
-	summoningMu     sync.Mutex
+	// Every summoner holds a reference to the slot of its swamp name (SwampWaiter.refs); the slot is dropped from
+	// the map by the summoner that releases the last reference, and a slot that is being dropped cannot be
+	// referenced any more. No lock is shared between summoners of different swamps.
+	summoningSwamps sync.Map
 
 	// interfaces
 	elysiumInterface  safeops.Safeops
@@ -372,7 +373,25 @@ func (h *hydra) GetLocker() lock.Lock {
 type SwampWaiter struct {
 	cond  *sync.Cond
 	ready bool
-	refs  int // number of summoners that hold a reference to this slot (guarded by hydra.summoningMu)
+	refs  atomic.Int32 // number of summoners that hold a reference to this slot; -1 = retired, being removed from the map
+}
+
+// ref takes a reference to the slot. It fails when the slot is retired: its last user is removing it from the map.
+func (w *SwampWaiter) ref() bool {
+	for {
+		r := w.refs.Load()
+		if r < 0 {
+			return false
+		}
+		if w.refs.CompareAndSwap(r, r+1) {
+			return true
+		}
+	}
+}
+
+// unref drops a reference and reports whether the caller retired the slot and has to remove it from the map.
+func (w *SwampWaiter) unref() bool {
+	return w.refs.Add(-1) == 0 && w.refs.CompareAndSwap(0, -1)
 }
 
 func newSwampWaiter() *SwampWaiter {
@@ -396,26 +415,22 @@ func (h *hydra) SummonSwamp(ctx context.Context, islandID uint64, swampName name
 	// if the ok is false then the swamp is not summoning, so we can start the summoning process and store the swamp in the map
 	// immediately
 	slotKey := swampName.Get()
-	h.summoningMu.Lock()
-	if h.summoningSwamps == nil {
-		h.summoningSwamps = make(map[string]*SwampWaiter)
+	var waiter *SwampWaiter
+	for {
+		result, _ := h.summoningSwamps.LoadOrStore(slotKey, newSwampWaiter())
+		waiter = result.(*SwampWaiter)
+		if waiter.ref() {
+			break
+		}
+		// a retired slot: its last user removes it from the map right now, the next round creates a fresh one
+		runtime.Gosched()
 	}
-	waiter, ok := h.summoningSwamps[slotKey]
-	if !ok {
-		waiter = newSwampWaiter()
-		h.summoningSwamps[slotKey] = waiter
-	}
-	waiter.refs++
-	h.summoningMu.Unlock()
 
 	// releaseSlot drops this summoner's reference; the slot is removed only when nobody references it
 	releaseSlot := func() {
-		h.summoningMu.Lock()
-		waiter.refs--
-		if waiter.refs == 0 {
-			delete(h.summoningSwamps, slotKey)
+		if waiter.unref() {
+			h.summoningSwamps.CompareAndDelete(slotKey, waiter)
 		}
-		h.summoningMu.Unlock()
 	}
 
 	// lezárjuk a következő kódrészt, így csak egyetlen rutin futhatja egyszerre egy domain néven belül
